@@ -18,7 +18,7 @@ SameAsModel(c, ln) ==
   \/ ln.i + 1 > Len(c.exp)
   \/ LET e == c.exp[ln.i + 1] IN
      /\ e.op = ln.op /\ e.rk = ln.rk /\ e.rx = ln.rx /\ e.code = ln.code /\ e.wpos = ln.wpos
-     /\ (e.known_closed = e.known) = (ln.known_closed = ln.known) /\ e.same = ln.same     \* the model's uploads are symbolic: only "all closed"
+     /\ (ln.known = 0 \/ (e.known_closed = e.known) = (ln.known_closed = ln.known)) /\ e.same = ln.same     \* the model's uploads are symbolic: only "all closed"
      /\ (ln.rk \in {"bytes", "text"} => e.rb = ln.rb)
      /\ (ln.rk = "form" => ln.items = (IF ln.op = "values" THEN c.args ELSE <<>>) \o FormVal(c, e.fsrc))
      /\ (ln.rk = "files" => FileNames(ln.fl) = FileNames(FilesVal(c, e.fsrc)))
